@@ -673,6 +673,28 @@ def _collect_definitions_clauses():
     ]
 
 
+def _non_null_completion_clauses():
+    def handles(p):
+        return [e for e in p.events if e.startswith("handle:")]
+
+    def completed_value_is_checked(p):
+        if p.outcome != "return":
+            return None
+        h = handles(p)
+        return count(p.events, "complete") == 1 and len(h) == 1 and index(p.events, "complete") < p.events.index(h[0]) and \
+            h[0] in ("handle:self.complete_value(...)", "handle:value")
+
+    return [
+        ("null-check-applies-to-the-completed-value", "the inner type's completion runs exactly once and the non-null check is applied, once, to the value it completed to "
+                                                     "(a value that completes to null - e.g. a scalar serialising to null - is reported)", completed_value_is_checked),
+    ]
+
+
+def _handle_label(call, args, kwargs):
+    v = args[2] if len(args) > 2 else None
+    return "handle:%s" % (v.text if isinstance(v, Unknown) else ("None" if isinstance(v, T.Const) and v.value is None else "?"))
+
+
 TRACE_CONTRACTS = [
     dict(id="BlockingExecutor.resolve_field", target="py_gql.execution.blocking_executor:BlockingExecutor.resolve_field", props=["C16"],
          config=Config(events=FIELD_EVENTS, nothrow=FIELD_NOTHROW), clauses=FIELD_CLAUSES,
@@ -690,6 +712,14 @@ TRACE_CONTRACTS = [
                                (r"^ResolverError$", lambda call, args, kwargs: "error(%s)" % ",".join(k for k in ("nodes", "path") if k in kwargs))],
                        nothrow=[r"self\.add_error$", r"^ResolverError$", r"^stringify_path$"]),
          clauses=_non_null_clauses(), assumes=["add_error and the error constructor do not raise"]),
+    dict(id="Executor.complete_non_nullable_value", target="py_gql.execution.executor:Executor.complete_non_nullable_value", props=["C04", "C10"],
+         config=Config(events=[(r"self\.complete_value$", "complete"), (r"self\._handle_non_nullable_value$", _handle_label)],
+                       nothrow=[r"self\._handle_non_nullable_value$"], callbacks=[(r"runtime\.map_value$", map_value_contract)]),
+         clauses=_non_null_completion_clauses(), assumes=["Runtime.map_value effect contract"]),
+    dict(id="BlockingExecutor.complete_non_nullable_value", target="py_gql.execution.blocking_executor:BlockingExecutor.complete_non_nullable_value", props=["C04", "C10"],
+         config=Config(events=[(r"self\.complete_value$", "complete"), (r"self\._handle_non_nullable_value$", _handle_label)],
+                       nothrow=[r"self\._handle_non_nullable_value$"]),
+         clauses=_non_null_completion_clauses(), assumes=[]),
     dict(id="Executor.complete_value", target="py_gql.execution.executor:Executor.complete_value", props=["C04", "C16"],
          config=Config(events=[(r"self\.complete_non_nullable_value$", "complete_non_nullable"), (r"self\.complete_list_value$", "complete_list"),
                                (r"^is_iterable$", "is_iterable"), (r"field_type\.serialize$", "serialize"), (r"field_type\.get_name$", "get_name"),
